@@ -103,15 +103,29 @@ class Session(BaseSession):
         self.event_dispatcher.notify(self.Event.end_request, request)
 
         read_callback = functools.partial(self.event_dispatcher.notify, self.Event.response_data)
+
+        # Only the final response is response data. What is read is held
+        # back until it is known not to belong to an interim response.
+        received = []
+        hold_callback = received.append
+        stream.data_event_dispatcher.add_read_listener(hold_callback)
+
+        try:
+            while True:
+                del received[:]
+                self._response = response = yield from stream.read_response()
+
+                # Interim responses (RFC 7231 6.2) precede the final response.
+                if not (100 <= response.status_code < 200
+                        and response.status_code != 101):
+                    break
+        finally:
+            stream.data_event_dispatcher.remove_read_listener(hold_callback)
+
+            for data in received:
+                read_callback(data)
+
         stream.data_event_dispatcher.add_read_listener(read_callback)
-
-        while True:
-            self._response = response = yield from stream.read_response()
-
-            # Interim responses (RFC 7231 6.2) precede the final response.
-            if not (100 <= response.status_code < 200
-                    and response.status_code != 101):
-                break
 
         response.request = request
 
